@@ -19,27 +19,35 @@ package clocksync
 //@   modifies nothing
 //@ func (*PackageVersionAnsPayload).UnmarshalBinary
 //@   props C09 C10
+//@   inline
 //@   modifies *p
 //@ func (*AppTimeReqPayload).UnmarshalBinary
 //@   props C09 C10
+//@   inline
 //@   modifies *p
 //@ func (*AppTimeAnsPayload).UnmarshalBinary
 //@   props C09 C10
+//@   inline
 //@   modifies *p
 //@ func (*DeviceAppTimePeriodicityReqPayload).UnmarshalBinary
 //@   props C09 C10
+//@   inline
 //@   modifies *p
 //@ func (*DeviceAppTimePeriodicityAnsPayload).UnmarshalBinary
 //@   props C09 C10
+//@   inline
 //@   modifies *p
 //@ func (*ForceDeviceResyncReqPayload).UnmarshalBinary
 //@   props C09 C10
+//@   inline
 //@   modifies *p
 //@ func (*Command).UnmarshalBinary
 //@   props C09 C10
+//@   inline
 //@   modifies *c
 //@ func (Command).Size
 //@   props C09
+//@   inline
 //@   modifies nothing
 //@   requires typed-nil: c.Payload != nil ==> as_nonnil(c.Payload)
 //@   ensures positive: result >= 1
